@@ -28,14 +28,14 @@ Inductive c17_case :=
 
 (* ---------- (a) scanner ---------- *)
 
-Fixpoint scan_run (ttl : N) (sup : bool) (V : store) (q : list mark) (steps : list c17_step) : option store :=
+Fixpoint scan_run (evp : bytes) (ttl : N) (sup : bool) (V : store) (q : list mark) (steps : list c17_step) : option store :=
   match steps with
   | [] => Some V
-  | SStore d :: t => scan_run ttl sup (apply_diff V d) q t
+  | SStore d :: t => scan_run evp ttl sup (apply_diff V d) q t
   | SCompact now R lo hi oc d :: t =>
-      let '(q', _, dd) := scanner_compact sup ttl now R lo hi q (init_d V oc) in
+      let '(q', _, dd) := scanner_compact evp sup ttl now R lo hi q (init_d V oc) in
       let V' := apply_diff V d in
-      if store_eqb (sort_by rec_ltb (d_store dd)) V' then scan_run ttl sup V' q' t else None
+      if store_eqb (sort_by rec_ltb (d_store dd)) V' then scan_run evp ttl sup V' q' t else None
   end.
 
 Fixpoint final_ok (V : store) (n : N) (fin : list (bytes * option (N * bytes) * option wres * wres)) : bool :=
@@ -77,35 +77,35 @@ Definition advance (e : eng) (now : N) (s : tst) : tst :=
 
 (* memkv removes at the timer, so a record written after the timer fired survives: timers are applied in
    time order together with the writes — the driver keeps dumps and writes apart from firing times *)
-Fixpoint ttl_run (e : eng) (ttl_ms : N) (s : tst) (evs : list tev) : bool :=
+Fixpoint ttl_run (e : eng) (prefix : bytes) (ttl_ms : N) (s : tst) (evs : list tev) : bool :=
   match evs with
   | [] => true
   | TCreate t k v rev :: r =>
       let s0 := advance e t s in
-      let ttl := create_ttl ttl_ms k in
-      ttl_run e ttl_ms (put_ent e t ttl (RVer k rev v) (put_ent e t ttl (RIdx k rev false) s0)) r
+      let ttl := create_ttl ttl_ms prefix k in
+      ttl_run e prefix ttl_ms (put_ent e t ttl (RVer k rev v) (put_ent e t ttl (RIdx k rev false) s0)) r
   | TUpdate t k v rev :: r =>
       let s0 := advance e t s in
-      ttl_run e ttl_ms (put_ent e t 0 (RVer k rev v) (put_ent e t 0 (RIdx k rev false) s0)) r
+      ttl_run e prefix ttl_ms (put_ent e t 0 (RVer k rev v) (put_ent e t 0 (RIdx k rev false) s0)) r
   | TDelete t k rev :: r =>
       let s0 := advance e t s in
-      ttl_run e ttl_ms (put_ent e t 0 (RVer k rev tombstone) (put_ent e t 0 (RIdx k rev true) s0)) r
+      ttl_run e prefix ttl_ms (put_ent e t 0 (RVer k rev tombstone) (put_ent e t 0 (RIdx k rev true) s0)) r
   | TDump t obs :: r =>
       let s0 := advance e t s in
-      store_eqb (sort_by rec_ltb (map t_rec (ts_store s0))) obs && ttl_run e ttl_ms s0 r
+      store_eqb (sort_by rec_ltb (map t_rec (ts_store s0))) obs && ttl_run e prefix ttl_ms s0 r
   end.
 
 Definition c17_check (c : c17_case) : bool :=
   match c with
   | KScan prefix ttl sup pre steps fin extra =>
       sortedb pre
-      && match scan_run ttl sup pre [] steps with
+      && match scan_run (events_prefix prefix) ttl sup pre [] steps with
          | Some V => final_ok V 1000000 fin
          | None => false
          end
       && (extra =? 0)
-  | KTtlChoice prefix ettl k ttls => forallb (N.eqb (create_ttl ettl k)) ttls && negb (is_nil ttls)
-  | KEngineTtl e prefix ttl_ms evs => ttl_run e ttl_ms (mkTS [] []) evs
+  | KTtlChoice prefix ettl k ttls => forallb (N.eqb (create_ttl ettl prefix k)) ttls && negb (is_nil ttls)
+  | KEngineTtl e prefix ttl_ms evs => ttl_run e prefix ttl_ms (mkTS [] []) evs
   end.
 
 (* ---------- the property on the implementation's observations ---------- *)
@@ -132,8 +132,7 @@ Definition removed (before after : store) : list rec := filter (fun x => negb (m
 
 (* verdict for one expiry removal: None = fine *)
 Definition expiry_verdict (prefix : bytes) (ttl now : N) (marks : list mark) (after : store) (x : rec) : option N :=
-  if negb (is_event_key prefix (rkey x)) then
-    (if contains events_sub (rkey x) then Some 1 else Some 0)                      (* only events *)
+  if negb (is_event_key prefix (rkey x)) then Some 0                               (* only events *)
   else match old_mark_rev ttl now marks with
        | None => Some 0
        | Some m =>
@@ -220,7 +219,7 @@ Fixpoint ttl_oracle (e : eng) (prefix : bytes) (ttl_ms : N) (seen : list tev) (e
                     let '(x, tw) := p in
                     if memb x obs then acc
                     else worse acc
-                      (if negb (is_event_key prefix (rkey x)) then (if contains events_sub (rkey x) then Some 1 else Some 0)
+                      (if negb (is_event_key prefix (rkey x)) then Some 0
                        else if ttl_ms <=? t - tw then None
                        else match e with EMem => Some 2 | EBadger => Some 0 end)) lw None in
       worse here (ttl_oracle e prefix ttl_ms (TDump t obs :: seen) r)
@@ -235,6 +234,6 @@ Definition c17_oracle (c : c17_case) : option N :=
   | KTtlChoice prefix ettl k ttls =>
       if forallb (N.eqb 0) ttls then None
       else if is_event_key prefix k then None
-      else if contains events_sub k then Some 1 else Some 0
+      else Some 0
   | KEngineTtl e prefix ttl_ms evs => ttl_oracle e prefix ttl_ms [] evs
   end.
